@@ -308,19 +308,23 @@ fn print_path(seed: u64, rounds: usize) {
         libc::sigaction(libc::SIGUSR1, &sa, core::ptr::null_mut());
     }
     let saved = unsafe { libc::dup(1) };
-    assert!(saved >= 0);
+    let saved2 = unsafe { libc::dup(2) };
+    assert!(saved >= 0 && saved2 >= 0);
     unsafe { libc::signal(libc::SIGPIPE, libc::SIG_IGN) };
     let me = unsafe { libc::pthread_self() } as usize;
     let mut results: Vec<Value> = vec![];
-    let kinds = ["direct", "print", "println", "direct", "println0"];
+    // stdout: the writer directly, print!, println!, println!(); stderr: the writer, eprint!,
+    // eprintln!, eprintln!(), dbg!(value)
+    let kinds = ["direct", "print", "println", "println0", "edirect", "eprint", "eprintln", "eprintln0", "dbg"];
     let lens = [0usize, 1, 5, 4095, 4096, 4097, 9000, 20000, 70000];
     let mut idx = 0usize;
     for round in 0..rounds {
         for &len in &lens {
             for kind in kinds {
-                if kind == "println0" && len != 0 {
+                if (kind.ends_with("ln0") && len != 0) || (kind == "dbg" && len > 9000) {
                     continue;
                 }
+                let fd = if kind.starts_with('e') || kind == "dbg" { 2 } else { 1 };
                 idx += 1;
                 let msg = pattern(len, idx);
                 // signals: none / one after a random delay / a burst
@@ -329,9 +333,32 @@ fn print_path(seed: u64, rounds: usize) {
                 unsafe {
                     assert_eq!(0, libc::pipe(fds.as_mut_ptr()));
                     libc::fcntl(fds[1], libc::F_SETPIPE_SZ, 4096);
-                    assert!(libc::dup2(fds[1], 1) == 1);
+                    assert!(libc::dup2(fds[1], fd) == fd);
                     libc::close(fds[1]);
                 }
+                // the OTHER standard descriptor goes to a second pipe: whatever the macro writes there
+                // went to the wrong place ("stray")
+                let other = 3 - fd;
+                let mut sfds = [0i32; 2];
+                unsafe {
+                    assert_eq!(0, libc::pipe(sfds.as_mut_ptr()));
+                    assert!(libc::dup2(sfds[1], other) == other);
+                    libc::close(sfds[1]);
+                }
+                let srfd = sfds[0];
+                let stray_reader = std::thread::spawn(move || {
+                    let mut n = 0usize;
+                    let mut buf = [0u8; 4096];
+                    loop {
+                        let r = unsafe { libc::read(srfd, buf.as_mut_ptr().cast(), buf.len()) };
+                        if r <= 0 {
+                            break;
+                        }
+                        n += r as usize;
+                    }
+                    unsafe { libc::close(srfd) };
+                    n
+                });
                 let rfd = fds[0];
                 let cap = 3 * len + 65536;
                 let reader = std::thread::spawn(move || {
@@ -389,20 +416,47 @@ fn print_path(seed: u64, rounds: usize) {
                         tiny_std::println!("{}", msg);
                         (format!("{msg}\n"), None)
                     }
-                    _ => {
+                    "println0" => {
                         tiny_std::println!();
                         ("\n".to_string(), None)
+                    }
+                    "edirect" => {
+                        let mut w = tiny_std::unix::print::__STDERR_WRITER;
+                        let r = core::fmt::Write::write_fmt(&mut w, format_args!("{}{}", &msg[..h], &msg[h..]));
+                        (msg.clone(), Some(r.is_ok()))
+                    }
+                    "eprint" => {
+                        tiny_std::eprint!("{}{}", &msg[..h], &msg[h..]);
+                        (msg.clone(), None)
+                    }
+                    "eprintln" => {
+                        tiny_std::eprintln!("{}", msg);
+                        (format!("{msg}\n"), None)
+                    }
+                    "eprintln0" => {
+                        tiny_std::eprintln!();
+                        ("\n".to_string(), None)
+                    }
+                    _ => {
+                        // dbg!(expr) prints "[file:line] expr = {:#?}\n" to stderr and returns the value
+                        #[rustfmt::skip]
+                        let (l, back) = (line!(), tiny_std::dbg!(msg.as_str()));
+                        assert!(back == msg.as_str(), "harness: dbg! must return its argument");
+                        (format!("[{}:{}] {} = {:#?}\n", file!(), l, "msg.as_str()", msg.as_str()), None)
                     }
                 };
                 done.store(true, Ordering::SeqCst);
                 unsafe {
-                    assert!(libc::dup2(saved, 1) == 1); // drops the last write end of the pipe
+                    // drops the last write end of the pipe
+                    assert!(libc::dup2(if fd == 1 { saved } else { saved2 }, fd) == fd);
+                    assert!(libc::dup2(if other == 1 { saved } else { saved2 }, other) == other);
                 }
+                let stray = stray_reader.join().unwrap();
                 let fired = sig.map(|h| h.join().unwrap()).unwrap_or(0);
                 let got = reader.join().unwrap();
                 // println!: the text and the newline are two writes; if the first is cut short by
                 // an error (discarded by the macro) the newline may still follow the prefix
-                let is_ln = kind.starts_with("println");
+                let is_ln = kind.contains("println") || kind == "dbg";
                 let mut body: &[u8] = &got;
                 let mut nl = false;
                 if is_ln && body.last() == Some(&b'\n') {
@@ -412,7 +466,7 @@ fn print_path(seed: u64, rounds: usize) {
                 let e = if is_ln { &expect.as_bytes()[..expect.len() - 1] } else { expect.as_bytes() };
                 let common = body.iter().zip(e.iter()).take_while(|(a, b)| a == b).count();
                 let mismatch: i64 = if common == body.len().min(e.len()) && body.len() <= e.len() { -1 } else { common as i64 };
-                results.push(json!({"op":"print","kind":kind,"len":e.len(),"rlen":body.len(),"mismatch":mismatch,"nl":nl,
+                results.push(json!({"op":"print","kind":kind,"len":e.len(),"rlen":body.len(),"mismatch":mismatch,"nl":nl,"ln":is_ln,"stray":stray,
                     "ok": match ok { Some(true) => 1, Some(false) => 0, None => 2 }, "signals": fired,
                     "head": &got[..got.len().min(24)]}));
             }
